@@ -7,6 +7,7 @@ from . import c05lib as L, schemagen, doccommon as DC
 THEOREMS = ['C05_load: for any parsed parts (any root, sections in any number and order, text between them) the loader gives the explicit document loaded_any',
             'C05_sections: each section of it = the kept children of the source sections routed to it, in load order',
             'C05_content_font_declarations_skipped / C05_styles_font_declarations_kept', 'C05_resave (C04 applied to the loaded document)',
+            'C05_loaded_shape + C05_resave_any: load, save, load for ANY parsed parts - no condition on the source (sections with text, CDATA, white space only)',
             'package level (other members byte-identical, media types): theorems of C03/C16 plus the oracle here']
 RULE = ('packages: (1) every sample document of the repository (tests/examples, samples, examples, contrib); (2) structure-preserving '
         'mutations of them written by an independent serialiser: prefixes renamed, a default namespace for element names, newline-separated '
